@@ -38,7 +38,7 @@ RULE = (
     "case = 3-16 files in a tree of <=6 directories (depth <=4) whose names are drawn from ordinary / hidden / "
     "always-excluded / look-alike alphabets, 0-4 ignore patterns of the documented forms built from names of the tree, "
     "carrier (.thailintignore | config ignore:), recursive flag, targets (root | sub-directory | explicit files | "
-    "directory + outside files). Three CLI runs (magic-numbers, nesting, file-placement) and, when recursive, Linter.lint "
+    "directory + outside files, where with --no-recursive files deeper below the directory count as outside). Three CLI runs (magic-numbers, nesting, file-placement) and, when recursive, Linter.lint "
     "per target; each observed file multiset must equal the model's. Non-trivial: a source file inside an "
     "always-excluded directory AND a look-alike name AND a pattern that matches some but not all files. Distinct = hash "
     "of (name-class shape of the tree, pattern forms, recursive, target kind)."
